@@ -849,6 +849,7 @@ def execute(desc):
         if okind == 'interrupted':
           fault('interrupt_' + intr['exc'])
           probe('interrupt_in_%s' % val[2])
+          probe('interrupted_call_%s' % akind)
           flags['interrupted'] = True
           state_change = True
           if akind in ('exhaustive', 'greedy', 'results'):
